@@ -841,8 +841,11 @@ DIRECTED = [
     {'op': 'mj', 'votes': [[[[0, '3'], [1, '3']], 2]], 'n': 1,
      'tie_breaking': 'default', 'unscored': None, 'min_count': 0, 'truncation': '0', 'bottom': '0'},
     # STAR: the ordinary single-winner run-off where the score leader loses the run-off
-    {'op': 'star', 'votes': [[[[0, '5'], [1, '4'], [2, '0']], 2], [[[0, '0'], [1, '1'], [2, '0']], 3]], 'n': 1,
+    {'op': 'star', 'votes': [[[[0, '5'], [1, '0'], [2, '0']], 2], [[[0, '1'], [1, '2'], [2, '0']], 3]], 'n': 1,
      'added_count': 1, 'added_fraction': '0', 'unscored': None, 'min_count': 0, 'truncation': '0', 'bottom': '0'},
+    # counts that are not Python ints (open finding: the aggregation expands one list element per vote)
+    {'op': 'score', 'votes': [[[[0, '5'], [1, '2']], '1/2'], [[[0, '1'], [1, '3']], '3/2']], 'n': 1, 'function': 'mean',
+     'unscored': None, 'min_count': 0, 'truncation': '0', 'bottom': '0'},
     # allocated score: enough supporters for every quota
     {'op': 'allocated', 'votes': [[[[0, '5'], [1, '2'], [2, '1']], 2], [[[1, '3'], [0, '1'], [2, '0']], 2]], 'n': 3, 'quota': 'hare'},
     {'op': 'allocated', 'votes': [[[[0, '5'], [1, '2']], 4], [[[1, '5'], [0, '1']], 3], [[[2, '4'], [0, '1'], [1, '1']], 3]], 'n': 2, 'quota': 'droop'},
@@ -947,6 +950,9 @@ def _tag(case):
     ncand = len({c for b, _ in prof for c in b})
     if any(len(b) < ncand for b, _ in prof):
         tags.append('partial_ballot')
+    if any(w.denominator != 1 for _, w in prof):
+        tags.append('fraction_count')
+        return
     if op in ('score_agg', 'score', 'mj', 'star'):
         fn = case.get('function', 'median_low' if op == 'mj' else 'sum')
         agg, corr = ref_aggregate(prof, case, fn)
@@ -992,7 +998,7 @@ REQUIRED_COUNTERS = ['pav_unique', 'pav_refusal', 'pav_one_seat', 'pav_one_seat_
                      'fn_mean', 'fn_sum', 'fn_median_low', 'unscored_None', 'unscored_0', 'unscored_min',
                      'truncation_fraction', 'truncation_count', 'min_count_binds', 'partial_ballot',
                      'score_boundary_tie', 'score_clear', 'mj_tie_default', 'mj_tie_plus', 'mj_ok', 'mj_unbreakable',
-                     'star_runoff', 'star_leader_loses_runoff', 'allocated_droop', 'allocated_hare']
+                     'star_runoff', 'star_leader_loses_runoff', 'allocated_droop', 'allocated_hare', 'fraction_count']
 
 
 def nontrivial(case, obs):
@@ -1049,6 +1055,7 @@ REQUIRED = ['pav_eq_spec', 'pavSpec_some_iff', 'pav_returns_iff_unique_maximiser
             'score_aggregate_eq_spec', 'mj_median_is_lower_median', 'score_mean_exact', 'score_eq_spec',
             'score_truncation_eq_spec', 'score_unscored_eq_spec', 'score_min_count_eq_spec',
             'mj_elects_highest_medians', 'star_runoff_pairwise', 'star_eq_schulze_of_runoff',
+            'allocated_spends_one_quota', 'allocated_fraction_out_spec',
             'mj_default_tiebreak_witness', 'mj_default_tiebreak_scale_witness', 'star_single_runoff_witness',
             'star_boundary_tie_witness', 'star_member_dropped_witness', 'allocated_empty_ballot_witness',
             'allocated_ballots_run_out_witness']
@@ -1060,9 +1067,10 @@ UNPROVED = [
     'star_elects_runoff_winner (general): STAR = Schulze winner among the top `runoff_size` scorers for run-offs of more than two '
     'finalists and under boundary ties (FALSE on the current code: star_*_witness); proved: the two-finalist run-off '
     '(star_runoff_pairwise)',
-    'allocated_spends_one_quota: each seat removes exactly min(quota, supporters) ballot weight from the strongest supporters '
-    '(modelled, correspondence-checked; the loop itself is FALSE of the definition on profiles with exhausted or bullet ballots: '
-    'allocated_*_witness)',
+    'allocated_eq_spec (whole loop): the sequence of winners equals the defining round-by-round procedure on every profile '
+    '(FALSE on the current code for exhausted / bullet ballots and order-dependent under ties: allocated_*_witness, open '
+    'findings); proved: every seat spends exactly one quota of the strongest supporters (allocated_spends_one_quota, '
+    'allocated_fraction_out_spec)',
 ]
 NOT_VERIFIED = [
     'iteration order of a Python set of candidates (Tie, frozenset) is modelled as ascending candidate id; the harness uses '
@@ -1093,8 +1101,9 @@ LEVEL_TEXT = ('PAV, SPAV, score aggregation, majority judgment (first stage), th
               'profiles and seat numbers: PAV returns exactly the unique maximiser of the harmonic satisfaction (refusal otherwise), '
               'independently of the instance history; PAV committees satisfy justified representation; every SPAV round elects the '
               'strict arg-max of the reweighted approvals; aggregates are the exact weighted mean / sum / lower median; MJ elects '
-              'above and never below the n-th highest median. The MJ default tie-break, larger STAR run-offs and the allocated-score '
-              'loop are modelled and tied by correspondence; their defects on the current code are proved as witnesses and recorded '
+              'above and never below the n-th highest median; every allocated-score seat spends exactly one quota of the strongest '
+              'supporters. The MJ default tie-break, larger STAR run-offs and the allocated-score round loop as a whole are modelled '
+              'and tied by correspondence; their defects on the current code are proved as witnesses and recorded '
               'as open findings.')
 LEVEL_NOTE = ('Trusted: Lean kernel + propext/Classical.choice/Quot.sound; translate.py for the quota functions; the correspondence '
               'harness (bounded by its generator) and the modelling assumptions in modelled_not_verified (set iteration order).')
